@@ -104,11 +104,19 @@ Proof.
   - destruct Hin as [Hin|[]]. subst c. discriminate.
 Qed.
 
+Lemma escaped_ok_esc : forall b r, escaped_ok (esc b ++ r) = escaped_ok r.
+Proof. intros b r. destruct b; reflexivity. Qed.
+
+Lemma escaped_ok_body : forall s, escaped_ok (concat (map esc s)) = true.
+Proof.
+  induction s as [|b s IH]; [reflexivity|]. cbn [map concat]. rewrite escaped_ok_esc. exact IH.
+Qed.
+
 Lemma quote_laws_g : forall pt ft pf ff, quote_laws (mkOracles unquote_g quote_g pt ft pf ff).
 Proof.
   intros. constructor; cbn.
   - exact unquote_quote_g.
-  - intros s. exists (concat (map esc s)). reflexivity.
+  - intros s. exists (concat (map esc s)). split; [reflexivity | apply escaped_ok_body].
   - exact quote_g_ws.
 Qed.
 
